@@ -10,6 +10,8 @@
    on every configuration the implementation reports (see the check), not by these theorems. *)
 From V Require Import Base NameMatch Chart Exec Large LargeLemmas Interp Legal SetLemmas
      LegalAbstract LegalLarge LegalRun WfCore LegalOracle.
+From V Require Import FlattenWf FlattenWfLemmas FlattenWfNecessary FlattenWfRun.
+From V Require Import Fast LegalHistBase LegalHistEntry LegalHistStep LegalHistRun LegalHistWf LegalHistCore LegalHistOracle LegalHistFast LegalHistFastRun.
 
 (* the set-level reason: (C - X) + E is legal whenever C is and X, E are what a microstep computes *)
 Theorem microstep_sets_preserve_legality :
@@ -70,3 +72,310 @@ Theorem legality_with_shared_history_bits_refuted :
     legal_configb c (l_cfg (fst (run_loop c lstate (large_step lg_fixed ex_fixed c) l_cfg fuel l_pristine x_init evs))) = false.
 Proof. exists kho_tree, [[101%N]], 12%nat. exact kho_illegal. Qed.
 Print Assumptions legality_with_shared_history_bits_refuted.
+
+(* ---- the hypotheses on the DOCUMENT ----
+   core_treeb t (FlattenWf.v) is a boolean predicate on the document tree t, the conjunction of:
+     ct_kindsb          only <scxml>/<state>, <parallel>, <final> elements (no <history>, no <initial>);
+     ct_rootb           the root is an <scxml> (or <state>) with at least one child state;
+     ct_uniqueb         the ids of the elements are pairwise different;
+     ct_initialb        an 'initial' attribute of a state with children names ONE CHILD of that state
+                        (absent: the first child is the default);
+     ct_no_root_targetb no transition targets the root element;
+     ct_target_setsb    the targets of one transition never lie in two different children of the same
+                        compound state (targets in ancestor/descendant relation and in different regions
+                        of a <parallel> are allowed).
+   Nothing is demanded of <final> (may have children), of event descriptors, conditions, executable
+   content, <data>; targets that name no element are allowed (LargeMicroStep::init drops them).
+
+   flatten_wf_core: for EVERY such document (early and late binding) the tables LargeMicroStep::init
+   (Chart.flatten) builds pass the check wf_coreb, and the root is a compound state -- the two hypotheses
+   of microstep_preserves_legal / run_always_legal / oracle_implies_legal above.  Not covered: documents
+   with <history>/<initial> elements or deep/multiple 'initial' attributes (outside the chart core). *)
+Theorem flatten_wf_core : forall late t, core_treeb t = true ->
+  wf_coreb (flatten late t) = true /\ fs_type (st (flatten late t) 0) = FCompound.
+Proof. exact flatten_wf_core_lemma. Qed.
+Print Assumptions flatten_wf_core.
+
+(* C02 at document level: for every well-formed core document, every execution-content variant xv, every
+   event history evs and every number of steps, the configuration after initialisation and after every
+   microstep of the engine model is legal (or still empty before initialisation).  Same reach as
+   run_always_legal, with the hypothesis on the document instead of on the flat tables. *)
+Theorem document_run_always_legal : forall late t xv, core_treeb t = true ->
+  forall fuel evs,
+    let c := flatten late t in
+    CfgOK c (fst (run_loop c lstate (large_step lg_fixed xv c) l_cfg fuel l_pristine x_init evs)).
+Proof. exact document_run_always_legal_lemma. Qed.
+Print Assumptions document_run_always_legal.
+
+(* one step() keeps the configuration legal, for every well-formed core document *)
+Theorem document_microstep_preserves_legal : forall late t xv, core_treeb t = true ->
+  let c := flatten late t in
+  forall l x, CfgOK c l -> CfgOK c (fst (fst (large_step lg_fixed xv c l x))).
+Proof. exact document_microstep_preserves_legal_lemma. Qed.
+Print Assumptions document_microstep_preserves_legal.
+
+(* the oracle applied to the implementation's configurations implies the legality notion of the theorems,
+   for every well-formed core document *)
+Theorem document_oracle_implies_legal : forall late t, core_treeb t = true ->
+  let c := flatten late t in
+  forall cfg, legal_configb c cfg = true -> LegalCfg c cfg.
+Proof. exact document_oracle_implies_legal_lemma. Qed.
+Print Assumptions document_oracle_implies_legal.
+
+(* necessity, clause by clause: whenever the tables of a document pass wf_coreb with a compound root, the
+   document has only core kinds, a proper root, no transition to the root; its 'initial' attributes name
+   one child provided the ids they list exist in the document (ct_initial_knownb; ids naming nothing are
+   dropped by init); its target sets are legal provided ids are unique. *)
+Theorem core_clauses_necessary : forall late t,
+  wf_coreb (flatten late t) = true -> fs_type (st (flatten late t) 0) = FCompound ->
+  ct_kindsb t = true /\ ct_rootb t = true /\ ct_no_root_targetb t = true /\
+  (ct_initial_knownb t = true -> ct_initialb t = true) /\
+  (ct_uniqueb t = true -> ct_target_setsb t = true).
+Proof. exact core_clauses_necessary_lemma. Qed.
+Print Assumptions core_clauses_necessary.
+
+(* hence, for documents with unique ids whose 'initial' attributes list existing ids, core_treeb is
+   EXACTLY the hypothesis of the theorems above: nothing is lost by stating them on documents *)
+Theorem core_treeb_exact : forall late t, ct_uniqueb t = true -> ct_initial_knownb t = true ->
+  (core_treeb t = true <-> wf_coreb (flatten late t) = true /\ fs_type (st (flatten late t) 0) = FCompound).
+Proof. exact core_treeb_exact_lemma. Qed.
+Print Assumptions core_treeb_exact.
+
+(* the two side conditions of the converse cannot be dropped (two leaves with the same id; initial="1 99") *)
+Theorem core_treeb_converse_needs_unique_ids_refuted :
+  exists t, ct_uniqueb t = false /\ ct_initial_knownb t = true /\ core_treeb t = false /\
+            wf_coreb (flatten false t) = true /\ fs_type (st (flatten false t) 0%nat) = FCompound.
+Proof. exact core_treeb_necessary_unique_refuted. Qed.
+Print Assumptions core_treeb_converse_needs_unique_ids_refuted.
+Theorem core_treeb_converse_needs_known_initial_refuted :
+  exists t, ct_uniqueb t = true /\ ct_initial_knownb t = false /\ core_treeb t = false /\
+            wf_coreb (flatten false t) = true /\ fs_type (st (flatten false t) 0%nat) = FCompound.
+Proof. exact core_treeb_necessary_initial_known_refuted. Qed.
+Print Assumptions core_treeb_converse_needs_known_initial_refuted.
+
+(* no clause of core_treeb can be dropped: for each clause a document that satisfies all the others
+   (core_tree_clauses lists the six clauses in the order above) and whose tables fail wf_coreb, or whose
+   root is not compound; for the target-set clause the run on one event also ends in an illegal
+   configuration (s1 --e--> {s2, s3}, two children of <scxml>) *)
+Theorem core_kinds_clause_needed_refuted :
+  exists t, core_tree_clauses t = [false; true; true; true; true; true] /\ wf_coreb (flatten false t) = false.
+Proof. exact core_kinds_needed_refuted. Qed.
+Print Assumptions core_kinds_clause_needed_refuted.
+Theorem core_root_clause_needed_refuted :
+  (exists t, core_tree_clauses t = [true; false; true; true; true; true] /\ wf_coreb (flatten false t) = false) /\
+  (exists t, core_tree_clauses t = [true; false; true; true; true; true] /\ fs_type (st (flatten false t) 0%nat) <> FCompound).
+Proof. exact core_root_needed_refuted. Qed.
+Print Assumptions core_root_clause_needed_refuted.
+Theorem core_unique_clause_needed_refuted :
+  exists t, core_tree_clauses t = [true; true; false; true; true; true] /\ wf_coreb (flatten false t) = false.
+Proof. exact core_unique_needed_refuted. Qed.
+Print Assumptions core_unique_clause_needed_refuted.
+Theorem core_initial_clause_needed_refuted :
+  (exists t, core_tree_clauses t = [true; true; true; false; true; true] /\ wf_coreb (flatten false t) = false) /\
+  (exists t, core_tree_clauses t = [true; true; true; false; true; true] /\ wf_coreb (flatten false t) = false).
+Proof. exact core_initial_needed_refuted. Qed.
+Print Assumptions core_initial_clause_needed_refuted.
+Theorem core_no_root_target_clause_needed_refuted :
+  exists t, core_tree_clauses t = [true; true; true; true; false; true] /\ wf_coreb (flatten false t) = false.
+Proof. exact core_no_root_target_needed_refuted. Qed.
+Print Assumptions core_no_root_target_clause_needed_refuted.
+Theorem core_target_sets_clause_needed_refuted :
+  exists t, core_tree_clauses t = [true; true; true; true; true; false] /\ wf_coreb (flatten false t) = false /\
+    exists evs fuel, let c := flatten false t in
+      legal_configb c (l_cfg (fst (run_loop c lstate (large_step lg_fixed ex_fixed c) l_cfg fuel l_pristine x_init evs))) = false.
+Proof. exact core_target_sets_needed_refuted. Qed.
+Print Assumptions core_target_sets_clause_needed_refuted.
+
+(* non-vacuity: the example document of hypotheses_satisfiable, and a second one with nested <parallel>s,
+   'initial' attributes, a <final>, three-target and ancestor/descendant-target transitions, pass core_treeb;
+   a run of the second reaches a configuration with the nested regions active *)
+Theorem document_hypotheses_satisfiable : core_treeb ex_tree = true /\ core_treeb ex_tree2 = true.
+Proof. split; [exact ex_tree_core | exact ex_tree2_core]. Qed.
+Print Assumptions document_hypotheses_satisfiable.
+Theorem document_example_reaches_nested_parallel :
+  l_cfg (fst (run_loop (flatten false ex_tree2) lstate (large_step lg_fixed ex_fixed (flatten false ex_tree2)) l_cfg 12%nat
+                       l_pristine x_init [[105%N]; [101%N]])) = [0; 2; 3; 5; 6; 7; 9; 10; 12]%nat.
+Proof. exact ex_tree2_reaches_nested_parallel. Qed.
+Print Assumptions document_example_reaches_nested_parallel.
+
+(* ===================== work package `hist`: <initial>, deep/multiple initial attributes, <history> ===================== *)
+
+(* WHAT: after initialisation and after every microstep of EVERY run (all event histories, all datamodel
+   states, any number of steps) of the model Large.v of LargeMicroStep::step (repaired code, lg_fixed) the
+   configuration is legal -- same statement as run_always_legal.
+   FOR WHICH CHARTS: flat tables passing the boolean check wf_initb (LegalHistWf.v): the history-free core PLUS
+   <initial> child elements (one transition, proper targets anywhere below the parent), `initial`
+   attributes naming deep descendants and/or several states (the completion is the target list as written:
+   non-empty, strict descendants, at most one child of every compound state on the paths to its members),
+   transitions targeting any state.  Pseudo-states must be leaves directly below a compound state.
+   NOT COVERED: <history> (next theorem), the fast engine, the generated C. *)
+Theorem run_always_legal_initial :
+  forall c xv, wf_initb c = true -> fs_type (st c 0) = FCompound ->
+  forall fuel evs,
+    CfgOK c (fst (run_loop c lstate (large_step lg_fixed xv c) l_cfg fuel l_pristine x_init evs)).
+Proof. exact run_legal_initial. Qed.
+Print Assumptions run_always_legal_initial.
+
+(* WHAT: the same for charts WITH <history> pseudo-states, shallow and deep, including transitions that target a
+   history, default transitions, restoring a recorded value, an internal transition re-entering through a
+   history whose parent stays active, several histories per document.
+   FOR WHICH CHARTS: wf_histb = wf_initb without "no history", plus: a history is a leaf below a COMPOUND
+   state (not below <parallel>), has a default transition with proper targets (shallow: children of the
+   parent; deep: descendants), and NO PROPER STATE IS RECORDED BY TWO HISTORIES (whb_hist_disjoint:
+   the fs_completion sets of two histories WITH DIFFERENT PARENTS share no proper state; a deep and a shallow
+   history of the same state are allowed, they are written together).  That excludes exactly the pattern of
+   known finding C02-K1 (a deep history above a state that owns a history) and cannot be dropped:
+   history_disjointness_needed below.
+   NOT COVERED: histories below <parallel>; overlapping histories (where the statement is false); the fast
+   engine; the generated C. *)
+Theorem run_always_legal_history :
+  forall c xv, wf_histb c = true -> fs_type (st c 0) = FCompound ->
+  forall fuel evs,
+    CfgOK c (fst (run_loop c lstate (large_step lg_fixed xv c) l_cfg fuel l_pristine x_init evs)).
+Proof. exact run_legal_history. Qed.
+Print Assumptions run_always_legal_history.
+
+(* WHAT: the run invariant behind it.  CfgOKH = (not yet initialised, empty configuration) or (legal configuration
+   over the tree of PROPER states: root active, parent-closed, exactly one proper child per active compound, all
+   proper children of an active parallel, no pseudo-state active), AND in both cases HistOK (l_hist): for every
+   history h the recorded part  l_hist /\ fs_completion h  is empty or a set of proper states strictly below
+   parent(h) that is closed under parents up to parent(h), contains a child of parent(h) and at most one
+   child of every compound -- hence restoring it is legal.  Preserved by every step() from ANY such state. *)
+Theorem microstep_preserves_legal_history :
+  forall c xv, wf_histb c = true -> fs_type (st c 0) = FCompound ->
+  forall l x, CfgOKH c l -> CfgOKH c (fst (fst (large_step lg_fixed xv c l x))).
+Proof. exact step_legal_history. Qed.
+Print Assumptions microstep_preserves_legal_history.
+
+Theorem run_always_legal_history_strong :
+  forall c xv, wf_histb c = true -> fs_type (st c 0) = FCompound ->
+  forall fuel evs,
+    CfgOKH c (fst (run_loop c lstate (large_step lg_fixed xv c) l_cfg fuel l_pristine x_init evs)).
+Proof. exact run_legal_history_strong. Qed.
+Print Assumptions run_always_legal_history_strong.
+
+(* WHAT: REMEMBER_HISTORY keeps the record usable: from a legal configuration, for any exit set inside it. *)
+Theorem remember_history_keeps_record_ok :
+  forall c, WFH c -> forall cfg exitset,
+    LegalH c (fun x => In x cfg) -> (forall x, In x cfg -> pseudoS c x = false) -> (forall x, In x exitset -> In x cfg) ->
+    forall hist, HistOK c hist -> HistOK c (remember_history c cfg exitset hist).
+Proof. exact remember_HistOK. Qed.
+Print Assumptions remember_history_keeps_record_ok.
+
+(* WHAT: the set-level step with pseudo-states: (C - X) + (E restricted to proper states) is legal whenever C is, the
+   selected transitions have active sources and pairwise non-overlapping exit intervals, and the record is usable. *)
+Theorem microstep_sets_preserve_legality_history :
+  forall c (W : WFH c) cfg sel,
+    LegalH c (fun x => In x cfg) -> (forall x, In x cfg -> x < nstates c) -> (forall x, In x cfg -> pseudoS c x = false) ->
+    (forall ti, In ti sel -> In (ft_source (tr c ti)) cfg) -> pairwise_ok lg_fixed c sel ->
+    forall hist, HistOK c hist ->
+    LegalH c (fun x => (In x cfg /\ ~ In x (exitset c cfg sel)) \/ (In x (HEfs c cfg sel hist) /\ pseudoS c x = false)).
+Proof. exact microstep_sets_legal_h. Qed.
+Print Assumptions microstep_sets_preserve_legality_history.
+
+(* WHAT: the oracle legal_configb, applied by the check to every configuration the implementation reports, implies
+   the legality notion of these theorems on every chart of wf_histb (pseudo-states allowed). *)
+Theorem oracle_implies_legal_history :
+  forall c, wf_histb c = true -> forall cfg, legal_configb c cfg = true -> LegalCfgH c cfg.
+Proof. intros c H cfg. apply legal_configb_sound_h. now apply wf_histb_sound. Qed.
+Print Assumptions oracle_implies_legal_history.
+
+(* WHAT: the new reach contains the old one: every chart of the history-free core (wf_coreb) passes wf_initb, hence
+   wf_histb; run_always_legal is the special case. *)
+Theorem core_charts_are_covered : forall c, wf_coreb c = true -> wf_initb c = true.
+Proof. exact wf_coreb_initb. Qed.
+Print Assumptions core_charts_are_covered.
+
+(* non-vacuity, computed from flatten: (a) a document with an <initial> element with a deep target, initial
+   attributes with a deep target and with two targets in two regions of a <parallel>, internal / target-less /
+   multi-target transitions passes wf_initb (and is outside wf_coreb); (b) a document with a deep and a shallow
+   history in different sub-trees, an <initial> element and transitions into both histories passes wf_histb *)
+Theorem hypotheses_satisfiable_initial :
+  wf_initb (flatten false hini_tree) = true /\ fs_type (st (flatten false hini_tree) 0) = FCompound /\
+  wf_coreb (flatten false hini_tree) = false.
+Proof. exact hini_tree_wf. Qed.
+Print Assumptions hypotheses_satisfiable_initial.
+
+Theorem hypotheses_satisfiable_history :
+  wf_histb (flatten false hh_tree) = true /\ fs_type (st (flatten false hh_tree) 0) = FCompound /\
+  wf_initb (flatten false hh_tree) = false.
+Proof. exact hh_tree_wf. Qed.
+Print Assumptions hypotheses_satisfiable_history.
+
+(* the side conditions cannot be dropped: each witness passes every conjunct of wf_histb but one and a run of the
+   engine model reaches an illegal configuration.  (1) disjoint histories: the C02-K1 document kho_tree;
+   (2) the default transition of a shallow history must name children of its parent; (3) an initial attribute
+   must not name two children of one compound state.  (2) and (3) are invalid documents. *)
+Theorem history_disjointness_needed :
+  exists t evs fuel,
+    let c := flatten false t in
+    whb_hist_disjoint c = false /\
+    (wfb_nonempty c && wfb_root c && wfb_parent c && wfb_children c && wfb_anc c && wfb_interval c &&
+     wfb_root_type c && wfb_src c && wfb_targets c && whb_pseudo_parent c && whb_pseudo_leaf c && whb_completion c &&
+     whb_target_sets c && whb_initial c && whb_hist_default c && whb_hist_cpl c)%bool = true /\
+    legal_configb c (l_cfg (fst (run_loop c lstate (large_step lg_fixed ex_fixed c) l_cfg fuel l_pristine x_init evs))) = false.
+Proof. exact history_disjointness_needed_refuted. Qed.
+Print Assumptions history_disjointness_needed.
+
+Theorem shallow_default_child_needed :
+  exists t evs fuel,
+    let c := flatten false t in
+    whb_hist_default c = false /\
+    (wfb_nonempty c && wfb_root c && wfb_parent c && wfb_children c && wfb_anc c && wfb_interval c &&
+     wfb_root_type c && wfb_src c && wfb_targets c && whb_pseudo_parent c && whb_pseudo_leaf c && whb_completion c &&
+     whb_target_sets c && whb_initial c && whb_hist_cpl c && whb_hist_disjoint c)%bool = true /\
+    legal_configb c (l_cfg (fst (run_loop c lstate (large_step lg_fixed ex_fixed c) l_cfg fuel l_pristine x_init evs))) = false.
+Proof. exact shallow_default_child_needed_refuted. Qed.
+Print Assumptions shallow_default_child_needed.
+
+Theorem initial_attribute_target_set_needed :
+  exists t evs fuel,
+    let c := flatten false t in
+    whb_completion c = false /\
+    (wfb_nonempty c && wfb_root c && wfb_parent c && wfb_children c && wfb_anc c && wfb_interval c &&
+     wfb_root_type c && wfb_src c && wfb_targets c && whb_pseudo_parent c && whb_pseudo_leaf c &&
+     whb_target_sets c && whb_initial c && whb_hist_default c && whb_hist_cpl c && whb_hist_disjoint c)%bool = true /\
+    legal_configb c (l_cfg (fst (run_loop c lstate (large_step lg_fixed ex_fixed c) l_cfg fuel l_pristine x_init evs))) = false.
+Proof. exact initial_attribute_target_set_needed_refuted. Qed.
+Print Assumptions initial_attribute_target_set_needed.
+
+(* ===================== the FAST engine (Fast.v, FastMicroStep::step) on the same charts ===================== *)
+
+(* WHAT: after initialisation and after every microstep of EVERY run of the model Fast.v of FastMicroStep::step the
+   configuration is legal (same statement as run_always_legal, with fast_step).
+   FOR WHICH CHARTS: wf_fastb = wf_histb (see run_always_legal_history) AND the default transition of every DEEP
+   history has exactly one target (whb_deep_default_single).  Every chart of wf_initb (no history), hence every
+   chart of wf_coreb, passes wf_fastb (wf_initb_fastb below).
+   The extra condition cannot be dropped: fast_deep_history_multi_target_default_refuted -- a DEFECT of
+   FastMicroStep.cpp (the loop over the default targets of a deep history adds the ancestors of the first
+   target only), the large engine is right on the same document.
+   NOT COVERED: histories below <parallel>, overlapping histories, the generated C. *)
+Theorem run_always_legal_history_fast :
+  forall c xv, wf_fastb c = true -> fs_type (st c 0) = FCompound ->
+  forall fuel evs,
+    CfgOK c (fst (run_loop c lstate (fast_step xv c) l_cfg fuel l_pristine x_init evs)).
+Proof. exact fast_run_legal_history. Qed.
+Print Assumptions run_always_legal_history_fast.
+
+(* WHAT: the invariant form (legal configuration of proper states and usable history record), one step from any such state *)
+Theorem microstep_preserves_legal_history_fast :
+  forall c xv, wf_fastb c = true -> fs_type (st c 0) = FCompound ->
+  forall l x, CfgOKH c l -> CfgOKH c (fst (fst (fast_step xv c l x))).
+Proof. exact fast_step_legal_history. Qed.
+Print Assumptions microstep_preserves_legal_history_fast.
+
+Theorem history_free_charts_are_covered_fast : forall c, wf_initb c = true -> wf_fastb c = true.
+Proof. exact wf_initb_fastb. Qed.
+Print Assumptions history_free_charts_are_covered_fast.
+
+(* WHAT: a valid document inside wf_histb (deep history whose default transition names two states in two regions of
+   a <parallel>, both two levels below their region) on which the fast engine reaches an illegal configuration
+   (s7 active without its parent s11) and the large engine a legal one.  Confirmed on the implementation. *)
+Theorem fast_deep_history_multi_target_default_refuted :
+  exists t evs fuel,
+    let c := flatten false t in
+    wf_histb c = true /\ fs_type (st c 0%nat) = FCompound /\ whb_deep_default_single c = false /\
+    legal_configb c (l_cfg (fst (run_loop c lstate (fast_step ex_fixed c) l_cfg fuel l_pristine x_init evs))) = false /\
+    legal_configb c (l_cfg (fst (run_loop c lstate (large_step lg_fixed ex_fixed c) l_cfg fuel l_pristine x_init evs))) = true.
+Proof. exact fast_deep_history_default_refuted. Qed.
+Print Assumptions fast_deep_history_multi_target_default_refuted.
